@@ -857,7 +857,7 @@ func httpStatic() {
 	}
 	must(os.WriteFile(filepath.Join(group.DataDirectory, "config.json"),
 		[]byte(`{"users":{"root":{"password":"pw","permissions":"admin"}}}`), 0600))
-	must(os.WriteFile(filepath.Join(group.Directory, "g.json"), []byte(`{}`), 0600))
+	must(os.WriteFile(filepath.Join(group.Directory, "g.json"), []byte(`{"users":{"oper":{"password":"p","permissions":"op"}}}`), 0600))
 	must(os.WriteFile(filepath.Join(group.Directory, "h.json"), []byte(`{}`), 0600))
 	static := filepath.Join(d, "static")
 	must(os.MkdirAll(static, 0700))
